@@ -17,6 +17,7 @@ import (
 // C12 (lexer items, parser totality, syntax endpoints) and the parsing half of C10/C11.
 
 type oplProg struct {
+	Kw     bool   `json:"kw"` // relation names begin with keyword letters (see kwNames)
 	Src    string `json:"src"`
 	Engine bool   `json:"engine"` // also evaluate through a real server configured with the program
 	LeafC  string `json:"leafc"`  // how the leaf c is spelled: inc | trav_rel | trav_perm | perm
@@ -99,6 +100,17 @@ func (e *storeEnv) parseTotal(src string, transports bool) (o parseObs) {
 			o.Msgs = append(o.Msgs, a.Message)
 		}
 	}
+	// a diagnosis belongs to its document: it reads the same after another document has been parsed
+	if len(errs) > 0 {
+		schema.Parse("// another document\n//\n//\nclass Other implements Namespace { related: { x: Missing[] } }\n")
+		for i, pe := range errs {
+			a := pe.ToAPI()
+			if again := fmt.Sprintf("%s@%d:%d-%d:%d", a.Message, a.Start.Line, a.Start.Col, a.End.Line, a.End.Col); again != apiMsgs[i] {
+				o.Bad = append(o.Bad, fmt.Sprintf("an error read %q when it was reported and %q after another document was parsed", apiMsgs[i], again))
+				break
+			}
+		}
+	}
 	if transports {
 		code, body := e.do("A", e.sr, "POST", "/opl/syntax/check", []byte(src))
 		o.RestStatus = code
@@ -131,6 +143,16 @@ func (e *storeEnv) parseTotal(src string, transports bool) (o parseObs) {
 	return
 }
 
+// relation names that begin with the letters of a keyword (OplGrammar.tla, variant kw) stand for a, b, c, par
+var kwNames = map[string]string{"classmates": "a", "thisb": "b", "ctxc": "c", "implementspar": "par"}
+
+func plainName(r string) string {
+	if p, ok := kwNames[r]; ok {
+		return p
+	}
+	return r
+}
+
 // evalChild evaluates a parsed rewrite under a valuation of the leaf relations.
 func evalChild(c ast.Child, val map[string]bool) bool {
 	switch x := c.(type) {
@@ -138,10 +160,10 @@ func evalChild(c ast.Child, val map[string]bool) bool {
 		if x.Relation == "q" { // permits.q is the leaf c
 			return val["c"]
 		}
-		return val[x.Relation]
+		return val[plainName(x.Relation)]
 	case *ast.TupleToSubjectSet:
 		// the leaf c through a traversal of D.par: holds iff it holds on the (one) parent
-		if x.Relation != "par" || (x.ComputedSubjectSetRelation != "c" && x.ComputedSubjectSetRelation != "q") {
+		if plainName(x.Relation) != "par" || (plainName(x.ComputedSubjectSetRelation) != "c" && x.ComputedSubjectSetRelation != "q") {
 			panic(fmt.Sprintf("unexpected traversal %s -> %s", x.Relation, x.ComputedSubjectSetRelation))
 		}
 		return val["c"]
@@ -216,6 +238,16 @@ func progObs(t *testing.T, p oplProg) map[string]any {
 		}
 	}
 	res["tt"] = tt
+	relName := func(x string) string {
+		if p.Kw {
+			for k, v := range kwNames {
+				if v == x {
+					return k
+				}
+			}
+		}
+		return x
+	}
 	if p.Engine {
 		// a server configured with the program: the leaves hold iff the direct tuple exists
 		reg := newRegistry(t, regOpts{opl: p.Src, gdepth: 30})
@@ -229,13 +261,13 @@ func progObs(t *testing.T, p oplProg) map[string]any {
 					if l == "c" && (p.LeafC == "trav_rel" || p.LeafC == "trav_perm") {
 						obj = "e" // the leaf holds on the parent
 					}
-					stored = append(stored, &ketoapi.RelationTuple{Namespace: "D", Object: obj, Relation: l, SubjectID: ptr("u")})
+					stored = append(stored, &ketoapi.RelationTuple{Namespace: "D", Object: obj, Relation: relName(l), SubjectID: ptr("u")})
 				}
 			}
 			// d always has the parent e (and a second parent on which nothing holds)
 			stored = append(stored,
-				&ketoapi.RelationTuple{Namespace: "D", Object: "d", Relation: "par", SubjectSet: &ketoapi.SubjectSet{Namespace: "D", Object: "e"}},
-				&ketoapi.RelationTuple{Namespace: "D", Object: "d", Relation: "par", SubjectSet: &ketoapi.SubjectSet{Namespace: "D", Object: "f"}})
+				&ketoapi.RelationTuple{Namespace: "D", Object: "d", Relation: relName("par"), SubjectSet: &ketoapi.SubjectSet{Namespace: "D", Object: "e"}},
+				&ketoapi.RelationTuple{Namespace: "D", Object: "d", Relation: relName("par"), SubjectSet: &ketoapi.SubjectSet{Namespace: "D", Object: "f"}})
 			writeOrdered(t, reg, stored)
 			ctx, cancel := context.WithCancel(context.Background())
 			ok, err := reg.PermissionEngine().CheckIsMember(ctx, internalTuple(t, reg, &ketoapi.RelationTuple{Namespace: "D", Object: "d", Relation: "p", SubjectID: ptr("u")}), 0)
